@@ -35,6 +35,7 @@ var c06StateDocs = []string{
 	"| a | b |\n|:--|--:|\n| c | d |\n", "| a |\n|:-:|\n| b |\n| c | d |\n", "```go\nx\n```\n", "```\n\ncode\n```\n", "~~~ info\ny\n\n", "- a\n- b\n  - c\n", "- a\n\n- b\n", "1. x\n2. y\n",
 	"- [ ] t\n- [x] u\n", "term\n: def\n\nterm2\n: def2\n", "# h {#id .c k=v}\n", "## h {#id}\n\n## h\n", "<div>\nx\n</div>\n\ny\n", "a <b>c</b> <!-- d -->\n", "> q\n> r\n\n> s\n", "*e* **s** `c` ~~d~~\n",
 	"http://a.b www.c.d e@f.g\n", "![i](/s \"t\") [l](/u)\n", "a  \nb\\\nc\n", "\n\n\n", "", "    code\n\n    more\n", "***\n", "-\n  a\n", "- a\n-\n", "&amp; &copy; &#35; &#x110000;\n", "日本語\n日本語\n", "a b\n",
+	"> `foo\n> bar`\n", "- `a\n  b` c\n", "`a\n   b`\n", "> [l\n> m](/u 't\n> u')\n", "> <b a='x\n> y'>\n", "1. *e\n   f* ``g\n   h``\n", "> [x\n> y]\n\n[x y]: /u\n", "a\\\nb  \nc\n",
 }
 
 type c06Op struct {
@@ -108,10 +109,18 @@ func runHistory(cs c06Case) (outs map[int][]string, digests [][]string, err erro
 		src  []byte
 	}
 	kept := map[int]*keptTree{}
+	// the caller hands the SAME buffer to every call of the history (with spare capacity
+	// behind it, as a buffer read from a file has); the reference run gets a private copy
+	bufs := map[int][]byte{}
 	for _, op := range cs.Hist {
-		src := []byte(cs.Pool[op.Doc])
+		if _, ok := bufs[op.Doc]; !ok {
+			b := make([]byte, len(cs.Pool[op.Doc]), len(cs.Pool[op.Doc])+64)
+			copy(b, cs.Pool[op.Doc])
+			bufs[op.Doc] = b
+		}
+		src := bufs[op.Doc]
 		if _, ok := outs[op.Doc]; !ok {
-			ref, e := convertWith(cs.Config.build(), src)
+			ref, e := convertWith(cs.Config.build(), []byte(cs.Pool[op.Doc]))
 			if e != nil {
 				return nil, nil, e
 			}
@@ -278,6 +287,13 @@ func runC06(c *Ctx) {
 	for i, x := range set {
 		for j, y := range set {
 			cases = append(cases, c06Case{Config: cfgs[(i+j)%len(cfgs)], Pool: []rawDoc{rawDoc(x), rawDoc(y)}, Hist: []c06Op{{"convert", 0, false}, {"parse+render", 1, false}, {"rerender", 1, false}}})
+		}
+	}
+	// the same document converted again and again from one buffer
+	for i, x := range set {
+		for k := 0; k < 2; k++ {
+			cases = append(cases, c06Case{Config: cfgs[(i+k*3)%len(cfgs)], Pool: []rawDoc{rawDoc(x)},
+				Hist: []c06Op{{"convert", 0, false}, {"convert", 0, k == 1}, {"parse+render", 0, false}, {"rerender", 0, false}, {"convert", 0, true}}})
 		}
 	}
 	ls := newLawSet()
